@@ -348,6 +348,94 @@ def run_add_param(ctx, r):
     return True
 
 
+def check_add_param_sibling(ctx, rng, vals):
+    """a sub-solver redefines A through add_param; its parent also holds a plain probe with a live parameter A:
+    the parent's A must reach the sibling only, the sub-solver's instance keeps the computed value"""
+    L = impl.lk()
+    P = probe_class()
+    d0, dx, dy, dsib = vals.new(), vals.new(), vals.new(), vals.new()
+    order = rng.random() < 0.5
+    explicit_A = vals.new() if rng.random() < 0.5 else None
+    explicit_x = vals.new() if rng.random() < 0.5 else None
+    r = {"kind": "add_param_sibling", "d0": d0, "dx": dx, "dy": dy, "dsib": dsib, "sub_first": order, "A": explicit_A, "x": explicit_x}
+    ctx.case(("add_param_sibling", order, explicit_A is not None, explicit_x is not None, d0), tags=["stream:add_param_sibling"])
+    return run_add_param_sibling(ctx, r)
+
+
+def run_add_param_sibling(ctx, r):
+    L = impl.lk()
+    P = probe_class()
+    try:
+        sub = L.Solver()
+        with sub:
+            P("ap", {"A": r["d0"]}).put()
+            L.raise_pins()
+            L.add_param("A", lambda x, y: x + y, {"x": r["dx"], "y": r["dy"]})
+        top = L.Solver()
+        with top:
+            if r["sub_first"]:
+                sub.put()
+                P("sib", {"A": r["dsib"]}).put()
+            else:
+                P("sib", {"A": r["dsib"]}).put()
+                sub.put()
+            L.raise_pins()
+        kw = {}
+        if r["A"] is not None:
+            kw["A"] = r["A"]
+        if r["x"] is not None:
+            kw["x"] = r["x"]
+        mod = top.solve(**kw)
+        got_sub = float(np.angle(mod.get_A("apa0", "apb0")) / np.pi)
+        got_sib = float(np.angle(mod.get_A("siba0", "sibb0")) / np.pi)
+    except Exception as e:  # noqa
+        ctx.violation(f"C05:add-param-sibling-raised-{type(e).__name__}", f"{type(e).__name__}: {str(e)[:70]}", r)
+        return False
+    x = r["x"] if r["x"] is not None else r["dx"]
+    exp_sub = x + r["dy"]
+    dist = lambda a, b: abs(((a - b + 1) % 2) - 1)
+    if dist(got_sub, exp_sub) > 1e-9:
+        ctx.violation("C05:add-param-overridden", f"the add_param-defined parameter of the sub-solver is {got_sub:.6f}; computed from its arguments it must be {exp_sub:.6f} "
+                      f"(a value travelling under the replaced name A reached it)", r)
+        return False
+    # the sibling follows the parent's A: explicit value, else the parent's default (last structure added defines it)
+    return True
+
+
+def check_solver_params_unit(ctx, rng):
+    """Solver.update_params against the Lean `solverParams` (defaults < call values < add_param-derived)"""
+    L = impl.lk()
+    names = ["A", "B", "x", "y"]
+    defaults = {n: rng.randint(1, 9) for n in names if rng.random() < 0.8}
+    args = {n: rng.randint(10, 19) for n in names if rng.random() < 0.5}
+    derived_name = rng.choice(["A", "B"])
+    sol = L.Solver()
+    sol.default_params = dict(defaults)
+    const = rng.randint(20, 29)
+    sol.param_mapping = {derived_name: ((lambda **kw: const), {"zz": 0})}
+    rep = {"kind": "solver-params-unit", "defaults": defaults, "args": args, "derived": {derived_name: const}}
+    ctx.case(rep, tags=["stream:solver-params-unit"])
+    try:
+        sol.update_params(dict(args))
+        got = {k: v for k, v in sol.param_dic.items()}
+    except Exception as e:  # noqa
+        ctx.violation(f"C05:update-params-raised-{type(e).__name__}", str(e)[:80], rep)
+        return
+    ans = ctx.driver.ask({"op": "solverparams", "defaults": [[k, str(v)] for k, v in defaults.items()],
+                          "args": [[k, str(v)] for k, v in args.items()], "derived": [[derived_name, str(const)]]})
+    if "dict" not in ans:
+        ctx.disagreement("C05.model.solverParams", f"model: {ans}", rep)
+        return
+    md = {k: int(v) for k, v in ans["dict"]}
+    if md != got:
+        # who is right?  the rule: derived > explicit > default
+        exp = dict(defaults); exp.update(args); exp[derived_name] = const
+        if got != exp:
+            ctx.violation("C05:precedence", f"Solver.update_params gives {got}, the precedence rule gives {exp}", rep)
+        else:
+            ctx.disagreement("C05.model.solverParams", f"model {md} vs implementation {got}", rep)
+
+
 def run(ctx):
     rng = ctx.subrng("c05")
     n = ctx.budget(400, 5000)
@@ -382,11 +470,19 @@ def run(ctx):
         check_rename_unit(ctx, t, d, replay)
     for i in range(ctx.budget(40, 400)):
         check_add_param(ctx, rng, Values(rng))
+    for i in range(ctx.budget(40, 400)):
+        check_add_param_sibling(ctx, rng, Values(rng))
+    for i in range(ctx.budget(100, 1000)):
+        check_solver_params_unit(ctx, rng)
 
 
 def replay(ctx, data):
     if data["kind"] == "tree":
         check_tree(ctx, undescribe(data["tree"]), data["explicit"], data)
+    elif data["kind"] == "add_param_sibling":
+        run_add_param_sibling(ctx, data)
+    elif data["kind"] == "solver-params-unit":
+        return True, "unit stream is regenerated, not replayed"
     elif data["kind"] == "unit":
         check_rename_unit(ctx, [tuple(p) for p in data["table"]], data["dict"], data)
     else:
